@@ -4,11 +4,13 @@
      udivrem               DivProofsApi.udivrem_spec
      div_rem_digit         DivProofs.div_rem_digit_spec
      the four bit-regrouping routines   BitDigitsProofs.*_spec (exact and inexact widths)
-   PENDING: `&BigUint * &BigUint` ([umul]) — its specification [umul_spec_statement] (C02,
-   area `mul`) is not proved yet.  It is used only by the big-base path of
-   to_radix_digits_le (operands of >= 64 digits), so every output-side theorem carries the
-   premise [small_or_umul u] = "u has fewer than 64 digits, or umul meets its specification". *)
-From BigNum Require Import Base BaseLemmas AddSub AddSubProofs Mul MulProofs Div DivProofs DivProofsApi
+     umul                  MulProofs5.umul_spec   (C02; [umul_spec_holds] at the end of this file)
+   `&BigUint * &BigUint` ([umul]) is used only by the big-base path of to_radix_digits_le
+   (operands of >= 64 digits).  The output-side theorems [inst_*] were proved before C02 landed
+   and carry the premise [small_or_umul u] = "u has fewer than 64 digits, or umul meets its
+   specification"; [small_or_umul_holds] discharges it for every u, and props/C06.v states the
+   theorems without it. *)
+From BigNum Require Import Base BaseLemmas AddSub AddSubProofs Mul MulProofs MulProofs5 Div DivProofs DivProofsApi
   BitDigits BitDigitsProofs SpecBytes BytesLemmas
   Radix RadixText RadixKernels RadixApi SpecRadix RadixProofs RadixProofs2 RadixProofs3 RadixTextProofs.
 Open Scope Z_scope.
@@ -193,3 +195,9 @@ Proof.
   rewrite inst_from_radix_be by (auto; unfold spec_to_radix_be; apply bytes_rev, spec_to_radix_le_bytes; auto).
   rewrite spec_radix_roundtrip_be by auto. cbn [omap bind option_map]. rewrite enc_of_canon by auto. reflexivity.
 Qed.
+
+(** * the multiplication premise, discharged (C02: MulProofs5.umul_spec) *)
+Lemma umul_spec_holds : umul_spec_statement.
+Proof. intros mp a b Hp Ca Cb. apply umul_spec; assumption. Qed.
+Lemma small_or_umul_holds u : small_or_umul u.
+Proof. right. exact umul_spec_holds. Qed.
